@@ -54,10 +54,10 @@ SECTION_IDS = {  # Note: order matters!
     "export": 7,
     "start": 8,
     "elem": 9,
+    "datacount": 12,  # the data count section sits between elem and code
     "func": 10,  # the field is called func,
     "code": 10,  # but the section is called code
     "data": 11,
-    "datacount": 12,
 }
 
 
